@@ -106,6 +106,9 @@ pub enum RunEnd {
 }
 
 /// Start a built program the way the repository's script runner does and step it.
+/// cells a running program may add to the data table before the run is cut as non-terminating
+pub const RUN_DATA_GROWTH_CAP: usize = 12_000;
+
 pub fn run_program<D: GD>(data: &mut D, entry: usize, input: Option<usize>, max_steps: usize) -> RunEnd {
     let start = match data.get_from_jump_table(entry) {
         Some(s) => s,
@@ -125,7 +128,13 @@ pub fn run_program<D: GD>(data: &mut D, entry: usize, input: Option<usize>, max_
         return RunEnd::Error(e.to_string());
     }
     let mut steps = 0usize;
+    // a loop that builds an ever larger value is cut like any other non-terminating loop: the stores' per-step cost
+    // grows with their size (BasicGarnishData copies its heap when a block grows), so a step bound alone is no work bound
+    let data_cap = data.get_data_len() + RUN_DATA_GROWTH_CAP;
     loop {
+        if steps % 16 == 0 && data.get_data_len() > data_cap {
+            return RunEnd::StepLimit;
+        }
         let r = guard("run", || execute_current_instruction(data));
         match r {
             Err(p) => return RunEnd::Panic(p),
